@@ -18,12 +18,12 @@ use crate::{
     sim::WriteRec,
 };
 
-fn show(v: Vec<String>) -> String {
+pub fn show(v: Vec<String>) -> String {
     if v.is_empty() { "-".into() } else { v.join(",") }
 }
 
 /// what a write contains, as far as recovery is concerned
-fn describe(w: &WriteRec, tomb: bool) -> String {
+pub fn describe(w: &WriteRec, tomb: bool) -> String {
     let first_block = if tomb { 1 } else { 0 };
     if w.partition < first_block {
         // tombstone log page(s): 16-byte slots (hash, sequence), big endian
@@ -68,13 +68,13 @@ fn describe(w: &WriteRec, tomb: bool) -> String {
     format!("data:{}", show(ents))
 }
 
-fn apply(parts: &mut [Vec<u8>], w: &WriteRec, bytes: usize) {
+pub fn apply(parts: &mut [Vec<u8>], w: &WriteRec, bytes: usize) {
     let p = &mut parts[w.partition as usize];
     let o = w.offset as usize;
     p[o..o + bytes].copy_from_slice(&w.data[..bytes]);
 }
 
-fn read_all(ex: &mut HExec) -> String {
+pub fn read_all(ex: &mut HExec) -> String {
     let keys = ex.cfg.keys;
     let cache = ex.cache.clone().unwrap();
     let mut reads = vec![];
